@@ -239,6 +239,7 @@ def run_semantic(ck, text_cases):
                 continue
             rep = {"property": "C07", "kind": "the SQL of the implementation does not return the reference answer",
                    "query": c["query"], "ctx": c["ctx"], "db": db, "expected": d.get("want"), "got": d.get("got"),
+                   "expected_is": "every matching line (model/LogqlSem.v log_rows); with ctx.limit = L > 0 the answer must be some top-L subset of it in the query direction",
                    "sql": c["sql"][0], "guards": {"width<=8": v["width"], "absent_guard": d["absent"], "oracle_ok": d["oracle"]},
                    "same_as_model": d["same"], "origin": origin.get(cid),
                    "replay": "harness logqlsql --cases <query,ctx> gives the SQL; evaluate it over db (model/SqlEval.v) or on a ClickHouse with these rows"}
